@@ -25,6 +25,7 @@ EXPLANATION += ' R19.13 also requires the elif test to compare the positions of 
 EXPLANATION += ' R19.13: an elif clause is not offered to the statement matcher.'
 EXPLANATION += ' R19.12: a function that remembers its answer under a key reads, in the computation of the remembered value, nothing of its parameters that the key does not contain (followed into the helpers it calls).'
 EXPLANATION += " R19.15: in the anchored modules and the shared text utilities no source text is cut with str.splitlines() (it breaks at form feed, \x1c-\x1e, \x85, U+2028/9; rope's and the ast's line numbers count \n only)."
+EXPLANATION += " R19.16: per-line indentation operations (blanks put in front of a line, leading blanks stripped or counted) in the refactoring modules run only on lines that do not start inside a string literal (lines taken from the helper that pairs each line with that flag, operation guarded by the flag being off)."
 ASSUMPTIONS = ["node.region is exact (rests on C08)"]
 
 
@@ -153,6 +154,9 @@ def check(ctx, res) -> None:
     from .common import line_model_rule as _lm
 
     _lm(ctx, res, "R19.15", ('rope.refactor.similarfinder', 'rope.refactor.restructure', 'rope.refactor.wildcards', 'rope.refactor.patchedast'))
+    from .common import string_aware_indent_rule as _si
+
+    _si(ctx, res, "R19.16", sorted(m for m in ctx.idx.units if m.startswith("rope.refactor")))
 
 
 def _check_main(ctx, res) -> None:
